@@ -39,6 +39,7 @@ def gen_records(
     w_dtype: str = "f8",
     z_dtype: str = "f8",
     edge_frac: float = 0.12,
+    coord_dtype: str = "f8",
 ) -> dict[str, np.ndarray]:
     """Columns ``ra``/``dec`` in degrees and optional ``w``/``z``.
 
@@ -62,7 +63,9 @@ def gen_records(
     if region in ("wrap", "wide", "npole", "spole"):
         ra[special[2]] = 0.0
         ra[special[3]] = 359.99999999999994
-    out = {"ra": ra[:n].copy(), "dec": dec[:n].copy()}
+    if coord_dtype.startswith("i"):
+        ra, dec = np.floor(ra), np.clip(np.rint(dec), -90, 90)
+    out = {"ra": ra[:n].astype(coord_dtype), "dec": dec[:n].astype(coord_dtype)}
     wq = rng.integers(1, 17, NMAX)  # always drawn: keeps streams aligned
     zu = rng.uniform(0.0, 1.0, NMAX)
     onedge = rng.uniform(0.0, 1.0, NMAX) < edge_frac
